@@ -354,3 +354,28 @@ CHECKS["C19"]["note"] = COMMON_NOTE + ("functorch batching rules are trusted thr
                                        "Known findings in known_findings.json (D33, D33b) and findings.d/C19.json.")
 CHECKS["C19"]["technique"] = ("Coq theorems (element-level vmap = stack by list insert/remove algebra over an abstract per-sample function; plumbing decision procedure; "
                               "memo-key invariant over histories) + extracted-model correspondence + vmap-vs-loop differential run")
+
+_splice("C01", "Separate theorems: ill-shaped tensors are rejected",
+        "Index writes (td[idx] = tensor / scalar / dict / tensordict, set_at_, update_at_; ints, slices, None, Ellipsis, one in-range advanced index) are "
+        "inside the model: the batch-size bookkeeping that decides acceptance (shared with C03), value expansion / reset, auto-creation of a missing key "
+        "through the sub-tensordict path with its partial effect when a later step refuses, torch's own tensor[idx] = v acceptance; they keep coherence at "
+        "full strength (no scope exclusion) through any handle and for any outcome, and interleave with every other call in the reachability theorem. "
+        "Separate theorems: a created entry has shape batch_size ++ value.shape[len(indexed):] on the container's device; a rejected index writes nothing; "
+        "ill-shaped tensors are rejected")
+_splice("C01", "also on lazy stacks, tensorclasses, NonTensorStack and index writes, which the model does not cover.",
+        "also on lazy stacks, tensorclasses and NonTensorStack, which the model does not cover.")
+_splice("C01", "Lazy stacks, tensorclasses, index writes and update_batch_size are covered by the model-independent snapshot oracle only.",
+        "Lazy stacks, tensorclasses, update_batch_size, NonTensorData under an index write, more than one advanced index and dim names met by an auto-created "
+        "nested entry are covered by the model-independent snapshot oracle only (the model answers Unmodelled explicitly there).", "note")
+
+_splice("C07", "contiguous follows torch's rule per entry. ",
+        "contiguous follows torch's rule per entry. Extended machine (same theorems over every history that mixes regular, window, stack and conversion "
+        "instructions): _SubTensorDict windows — set_ through any window changes exactly the source cells the window maps to, every alias of the source "
+        "reads the new values, nothing else changes; in-place arithmetic through a BASIC window runs on views of the source's own entries (advanced windows: "
+        "finding D70, refuted by a witness); lazy stacks — set_/update_/lazy[idx] = td/zero_/fill_/unary arithmetic through the stack are the regular in-place "
+        "ops on each member's own storages with the unbound piece, lazy.get(leaf) is fresh, lazy.get(nested) allocates nothing (flatten_keys copies: finding "
+        "D73, refuted); memmap_() is a pure rebinding step that keeps nodes and handles, share_memory_() rebinds nothing, and both class theorems hold in "
+        "every state reached afterwards. ")
+_splice("C07", "Lazy stacks, _SubTensorDict, tensorclass, memory-mapped and shared containers are covered by the oracle stream only.",
+        "tensorclass, lazy expand / unflatten_keys / split_keys / binary arithmetic / masks on the stack dim, sub.masked_fill_ / apply_ / sub[idx] = v are covered "
+        "by the oracle stream only; no per-key view_shares / copy_fresh theorem through windows (no extended-state well-formedness invariant).", "note")
